@@ -414,6 +414,9 @@ carquet_status_t parquet_parse_file_metadata(
  * @param bytes_read Output: number of bytes consumed
  * @param error Error information
  * @return Status code
+ *
+ * The min/max pointers of page statistics are not copied: they point into
+ * `data` and stay valid only as long as that buffer does.
  */
 carquet_status_t parquet_parse_page_header(
     const uint8_t* data,
